@@ -107,6 +107,23 @@ theorem label_fields (e : Em) (n : String) :
   | none => refine Or.inr ⟨rfl, rfl, ?_, ?_, ?_, ?_, ?_, ?_⟩ <;> (simp only; split <;> rfl)
 
 
+/-- what an accepted `emitN` does to the dangling maps -/
+theorem emit_dangling (e : Em) (k : LineKind) (d : List Nat) (i l f : String) (dg : Dangling) (c : Nat)
+    (hc : e.cap = some c) (hok : (emit e k d i l f dg).2 = .ok) :
+    (emit e k d i l f dg).1.base = e.base ∧ (emit e k d i l f dg).1.code = e.code ++ d ∧
+    (emit e k d i l f dg).1.address = e.address + d.length ∧
+    (emit e k d i l f dg).1.dS8 = (if dg = .s8 then addRef e.dS8 l (e.address + d.length - 1) else e.dS8) ∧
+    (emit e k d i l f dg).1.dU16 = (if dg = .u16 then addRef e.dU16 l (e.address + d.length - 2) else e.dU16) := by
+  unfold emit at hok ⊢
+  cases hw : write e d with
+  | none => rw [hw] at hok; simp at hok
+  | some e2 =>
+    rcases AsmLemmas.write_some e e2 d hw with ⟨hn, _⟩ | ⟨c', _, _, rfl⟩
+    · rw [hc] at hn; simp at hn
+    · simp only [emitTail, emitBase]
+      cases dg <;> (repeat' split) <;> simp_all
+
+
 /-- data blocks never touch the base or the dangling maps -/
 theorem emitBytes_static (e : Em) (b : List Nat) :
     (emitBytes e b).1.base = e.base ∧ (emitBytes e b).1.dS8 = e.dS8 ∧ (emitBytes e b).1.dU16 = e.dU16 := by
